@@ -238,7 +238,7 @@ func (p prop) Drive(d *core.Driver) error {
 	}
 	d.T.Set("corpus", map[string]int{"programs": len(corpus.Programs), "templates": len(corpus.Templates), "program_sets": len(corpus.ProgSets), "template_sets": len(corpus.TmplSets), "snippets": len(corpus.Snippets), "fragments": len(corpus.Fragments)})
 
-	total := d.N(30000, 1200000)
+	total := d.N(30000, 500000)
 	round := 60000
 	done := 0
 	sampled := 0
